@@ -169,8 +169,24 @@ FRAMES = {
 }
 
 
+def random_frame_name(rng):
+    """'rnd:a,b,c;d,e,f;g,h,i' -- three independent lattice vectors with components in -2..2 (seeded)"""
+    while True:
+        M = [[rng.randint(-2, 2) for _ in range(3)] for _ in range(3)]
+        det = (M[0][0] * (M[1][1] * M[2][2] - M[1][2] * M[2][1]) - M[0][1] * (M[1][0] * M[2][2] - M[1][2] * M[2][0])
+               + M[0][2] * (M[1][0] * M[2][1] - M[1][1] * M[2][0]))
+        if det != 0 and all(any(r) for r in M):
+            return 'rnd:' + ';'.join(','.join(map(str, r)) for r in M)
+
+
+def _frame_matrix(name):
+    if name.startswith('rnd:'):
+        return tuple(tuple(int(x) for x in r.split(',')) for r in name[4:].split(';'))
+    return FRAMES[name]
+
+
 def frame_map(name, scale=F(1), origin=(0, 0, 0)):
-    M = FRAMES[name]
+    M = _frame_matrix(name)
 
     def f(p):
         q = (sum(M[j][i] * p[j] for j in range(3)) for i in range(3))
@@ -212,6 +228,14 @@ UNIT_POLYS = {
 
 # scales keep coordinates on the quarter lattice and within |x| <= ~8
 FRAME_SCALE = {'axis': F(1), 'planar': F(1, 2), 'oblique': F(1, 2), 'pyth3': F(1, 4), 'pyth7': F(1, 4), 'shear': F(1, 2), 'yz45': F(1, 2)}
+
+
+class _Scale(dict):
+    def __missing__(self, k):
+        return F(1, 2)          # seeded random frames
+
+
+FRAME_SCALE = _Scale(FRAME_SCALE)
 
 
 def body(shape, frame='axis', origin=(0, 0, 0), perm=None, scale=None):
